@@ -2245,7 +2245,10 @@ static vbi_bool vbi_proxyd_send_sliced( PROXY_CLNT * req, vbi_bool * p_blocked )
       /* XXX TODO allow both raw and sliced in the same message */
       if (VBI_RAW_SERVICES(req->all_services) == FALSE)
       {
-         for (idx = 0; (idx < req->p_sliced->line_count) && (idx < max_lines); idx++)
+         /* max_lines limits the number of lines the client is prepared to
+            receive, not the position of the lines in the device's frame */
+         for (idx = 0; (idx < req->p_sliced->line_count) &&
+                       ((int) p_msg->body.sliced_ind.sliced_lines < max_lines); idx++)
          {
             if ((req->p_sliced->lines[idx].id & req->all_services) != 0)
             {
